@@ -251,6 +251,13 @@ where
             ));
         }
 
+        // The generators must supply exactly one masking base for each blinding factor
+        if statement.generators.g_bases().len() != extension_degree {
+            return Err(ProofError::InvalidArgument(
+                "Inconsistent number of G generator points".to_string(),
+            ));
+        }
+
         // The witness and statement extension degrees must match
         // This ensures we have the necessary corresponding generators
         if witness.extension_degree != statement.generators.extension_degree() {
@@ -785,6 +792,13 @@ where
         // Compute 2**n-1 for later use
         let two = Scalar::from(2u8);
         let two_n_minus_one = two.pow_vartime([bit_length as u64]) - Scalar::ONE;
+
+        // The generators must supply exactly one masking base for each blinding factor
+        if g_base_vec.len() != extension_degree {
+            return Err(ProofError::InvalidArgument(
+                "Inconsistent number of G generator points".to_string(),
+            ));
+        }
 
         // Weighted coefficients for common generators
         let mut g_base_scalars = vec![Scalar::ZERO; extension_degree];
